@@ -42,7 +42,7 @@ notes = open("/verif/tools/sec13_notes.md").read() if os.path.exists("/verif/too
 rounds = "; ".join(f"round {r}: {v['target']} / {v['confirmed']}" for r, v in sorted(per_round.items()))
 text = f"""## 13. Seeded changes: which check catches which
 
-{tot} changes to felixpalmer/a5-rs were produced by 180 fresh sub-agents (one per property and round, two changes each in rounds 1-7, up to two in rounds 8 and 9; nine
+{tot} changes to felixpalmer/a5-rs were produced by 200 fresh sub-agents (one per property and round, two changes each in rounds 1-7, up to two in rounds 8 to 10; ten
 rounds). Each agent got only the text of one property (its line of `properties.jsonl`) and a scratch git worktree of /repo
 under /tmp - nothing from /verif. Round 1 (CXX-1, CXX-2) asked for a change that breaks the property while still compiling
 and passing the 150 existing tests, with a demonstration, and that needs something specific to manifest. Later rounds
@@ -52,7 +52,7 @@ rounds is `seeded/AGENT_PROMPT.txt`): round 3 build-profile differences, narrowi
 least one stateless change per agent; round 5 smooth errors, compensating sites, order / length / multiplicity of list
 arguments, single faces or orientations; round 6 the world cell and base cells, options, metadata and hex functions, the
 exact limits of the domain, pairs of list elements, process-level first calls, Ok / Err flips; round 7 rarely executed branches, helpers shared by two
-callers, implicit assumptions between modules, inputs combining two special conditions; rounds 8 and 9 see the notes below. Every change was confirmed by
+callers, implicit assumptions between modules, inputs combining two special conditions; rounds 8 to 10 see the notes below. Every change was confirmed by
 me in a scratch worktree (`tools/eval_seeded.py confirm`: the patch applies, the crate builds with the hook feature, the 150
 existing tests pass, the demonstration fails with the change and passes without it) and is kept as `seeded/<id>/` (patch.diff,
 demo.rs, meta.json, confirmation.json, detection.json). No change was ever committed to /repo; checks were run against one by
@@ -61,8 +61,8 @@ afterwards (`tools/eval_seeded.py detect`, evidence redirected to a scratch dire
 
 Columns: "all quick checks that fire" is from one sweep per change, done with the monitors as they were at the time: all 20
 quick checks for rounds 1-4 (rounds 1 and 2 were swept before most of the hardening of 12b / 12c, so for them it is a lower
-bound); for rounds 5 to 7 only the target check and three to six others, for rounds 8 and 9 the target check alone and, for the misses, two to five others (marked "[of n run]") to save time, so absence of a
-check there means nothing. "Caught by its own property's check" is from the final monitors for rounds 5 to 9 and was re-run
+bound); for rounds 5 to 7 only the target check and three to six others, for rounds 8 to 10 the target check alone and, for the misses, two to five others (marked "[of n run]") to save time, so absence of a
+check there means nothing. "Caught by its own property's check" is from the final monitors for rounds 5 to 10 and was re-run
 for rounds 1-4 after the round-4 hardening (`tools/retarget.sh`).
 
 **Result: {conf} of {tot} changes are confirmed; {any_} of those {conf} are caught by at least one quick check; {tgt} by the check of
